@@ -1,6 +1,6 @@
 #!/bin/bash
 # usage: runseed.sh <seed dir containing patch.diff> <prop> [govc args]
-d=$1; prop=$2; shift 2
+d=$(cd "$1" && pwd); prop=$2; shift 2
 scratch=$(mktemp -d /dev/shm/seed.XXXX)
 trap 'rm -rf $scratch' EXIT
 rsync -a --exclude .git /repo/ $scratch/
